@@ -168,8 +168,9 @@ def spillInstrOkB (p : Program) (C : SpillCtx) (live : Nat → List VReg)
   pl.ren.all (fun tf => C.temps.contains tf.1 && C.fresh.contains tf.2) &&
   -- every occurrence of a temp of the node is renamed, nothing fresh occurs before
   (ins.uses ++ ins.defs).all (fun r => (!C.temps.contains r || (pl.ren.lookup r).isSome) && !C.fresh.contains r) &&
-  -- a jump target gets no load in front of it
+  -- a jump target gets no load in front of it; a jumping instruction no store behind it
   (ins.label.isNone || (loadsOf pl.ren ins).isEmpty) &&
+  (ins.jumps.isEmpty || (storesOf pl.ren ins).isEmpty) &&
   -- scratch registers of the load code hold nothing that is live before the instruction,
   -- those of the store code nothing that is live after it
   ((loadsOf pl.ren ins).isEmpty ||
@@ -194,5 +195,55 @@ def checkSpillStep (pre : Program) (post : List SInstr) (C : SpillCtx)
   C.fresh.all (fun f => !C.temps.contains f && !C.model.fixed f) &&
   C.temps.all (fun t => !C.model.fixed t) &&
   spillFrom pre C live plan 0 pre
+
+/-! ### semantics of the rewritten list
+
+Like the virtual machine of `Model.MCode`, plus one memory cell `slot` (the stack slot
+this rewrite allocated; by construction only its loads and stores touch it).  The state
+counts the ordinary instructions executed so far (`k`): ordinary instruction number `k`
+receives junk `Jp k` (so that it can be compared with step `k` of the original list),
+load/store code receives junk `Js k` for its scratch registers. -/
+
+structure SState (Val σ : Type) where
+  pc : Nat
+  regs : VReg → Val
+  st : σ
+  slot : Val
+  k : Nat
+
+/-- scratch registers of spill code, and every fixed register overlapping one, end up with junk -/
+def scratch {Val : Type} (M : RegModel) (J : PReg → Val) (R : VReg → Val) (cl : List VReg) : VReg → Val :=
+  fun r => if cl.any (fun z => touches M z r) then J (M.colour r) else R r
+
+def sstep {Val σ : Type} (S : Sem Val σ) (M : RegModel) (Jp Js : Nat → PReg → Val) (q : List SInstr)
+    (s : SState Val σ) : SState Val σ :=
+  match q[s.pc]? with
+  | none => s
+  | some (.load f cl) =>
+    { s with pc := s.pc + 1, regs := writeRegV M (Js s.k) (scratch M (Js s.k) s.regs cl) f s.slot }
+  | some (.store f cl) =>
+    { s with pc := s.pc + 1, slot := s.regs f, regs := scratch M (Js s.k) s.regs cl }
+  | some (.ins ins) =>
+    let args := ins.uses.map s.regs
+    { pc := pick (succsL (q.map SInstr.label) s.pc ins.jumps) (S.br ins.sem args s.st) (s.pc + 1)
+      regs := writeV M (Jp s.k) (defVal S ins args s.st) ins.defs 0 (ins.clobbers.foldl (havocV M (Jp s.k)) s.regs)
+      st := newSt S ins args s.st
+      slot := s.slot
+      k := s.k + 1 }
+
+def srun {Val σ : Type} (S : Sem Val σ) (M : RegModel) (Jp Js : Nat → PReg → Val) (q : List SInstr) :
+    Nat → SState Val σ → SState Val σ
+  | 0, s => s
+  | n + 1, s => srun S M Jp Js q n (sstep S M Jp Js q s)
+
+/-- the original list, junk indexed forwards: step number `k` receives `Jp k` -/
+def vrunF {Val σ : Type} (S : Sem Val σ) (M : RegModel) (Jp : Nat → PReg → Val) (p : Program) :
+    Nat → Nat → VState Val σ → VState Val σ
+  | 0, _, s => s
+  | n + 1, k, s => vrunF S M Jp p n (k + 1) (vstep S M (Jp k) p s)
+
+/-- position in the rewritten list of the code for original instruction `i` -/
+def offset (plan : Nat → Plan) (p : Program) (i : Nat) : Nat :=
+  (expandAll plan 0 (p.take i)).length
 
 end Model.RA
